@@ -116,18 +116,18 @@ def discipline(ctx, clause):
     return obs, counts, writes
 
 
-def accumulation_loops_total(ctx, clause, writes):
-    """Loops (in the evidence packages) whose body reaches an accumulator write visit every element."""
+def _accumulation_loops(ctx, writes):
+    """(Func, loop, accumulation sites in its body) for the loops of the evidence packages whose body reaches an accumulator
+    write - directly or through a call."""
     p, r = ctx.p, ctx.r
     acc = {f.qual for f, n, kind, _ in writes if kind in ("inc", "append", "init")}
-    # functions that can reach an accumulating function
     reach_cache = {}
 
     def reaches(f):
         if f.qual not in reach_cache:
             reach_cache[f.qual] = bool(r.reach_from([f.qual]) & acc)
         return reach_cache[f.qual]
-    obs, n = [], 0
+    out = []
     for f in p.funcs.values():
         if not f.module.name.startswith(EVIDENCE_PACKAGES):
             continue
@@ -137,23 +137,70 @@ def accumulation_loops_total(ctx, clause, writes):
             if not isinstance(lp, (ast.For, ast.While)):
                 continue
             body_nodes = [x for s in lp.body for x in ast.walk(s)]
-            direct = any(x is wn for x in body_nodes for ff, wn, kind, _ in writes if ff is f and kind in ("inc", "append", "init"))
-            via = False
+            sites = [x for x in body_nodes for ff, wn, kind, _ in writes if ff is f and kind in ("inc", "append", "init") and x is wn]
             for x in body_nodes:
                 if isinstance(x, ast.Call):
                     cs = r.site_of.get(id(x))
                     if cs is not None and any(reaches(t) for t in r.live_targets(cs, r.instantiated)):
-                        via = True
-            if not (direct or via):
-                continue
-            n += 1
-            bad = [x for x in body_nodes if isinstance(x, (ast.Break, ast.Continue, ast.Return))]
-            key = "R-LOOP|accumulation|%s|%s" % (f.short, f.key(lp.iter if isinstance(lp, ast.For) else lp.test)[:50])
-            obs.append(Ob(clause, "R-LOOP", key, f.loc(lp), not bad,
-                          "accumulation loop over `%s` is total" % norm(lp.iter if isinstance(lp, ast.For) else lp.test)[:50] if not bad else
-                          "accumulation loop over `%s` in %s contains %s at %s: some triples / instances / classes are not counted" % (
-                              norm(lp.iter)[:40] if isinstance(lp, ast.For) else "?", f.short, type(bad[0]).__name__.lower(), f.loc(bad[0])),
-                          note=not ctx.reachable(f)))
+                        sites.append(x)
+            if sites:
+                out.append((f, lp, sites, body_nodes))
+    return out
+
+
+def _guards_of(f, lp, sites):
+    """Conditions under which the accumulation sites of the loop run: (canonical test, arm) of every `if` between the loop and
+    a site (guard clauses were put in structured form by the loader, so `if c: continue` reads `if not c: <rest>`)."""
+    from ..canon import negate, _is_negated
+    pm = parent_map(lp)
+    out = set()
+    for s_ in sites:
+        cur = s_
+        while cur in pm:
+            par = pm[cur]
+            if isinstance(par, ast.If):
+                in_body = any(cur is x or any(cur is y for y in ast.walk(x)) for x in par.body)
+                test = par.test if in_body else negate(par.test)
+                if _is_negated(test):
+                    out.add("not (" + f.key(negate(test)) + ")")
+                else:
+                    out.add(f.key(test))
+            elif isinstance(par, ast.IfExp):
+                out.add("?:" + f.key(par.test))
+            cur = par
+    return out
+
+
+def accumulation_loops_total(ctx, clause, writes):
+    """Loops (in the evidence packages) whose body reaches an accumulator write visit every element: nothing leaves the loop
+    early, and the accumulation runs under no condition that the confirmed instance of the loop (the same loop of the reference
+    tree) did not have - a new filter in front of the counting, however it is spelt, is an uncounted triple / instance / class."""
+    obs, n = [], 0
+    ref = ctx.ref
+    ref_guards = {}
+    if ref is not None:
+        for rf, rlp, rsites, _ in _accumulation_loops(ref, accumulator_writes(ref)):
+            ref_guards.setdefault(rf.qual, []).append((rf.key(rlp.iter if isinstance(rlp, ast.For) else rlp.test)[:50], _guards_of(rf, rlp, rsites)))
+    for f, lp, sites, body_nodes in _accumulation_loops(ctx, writes):
+        n += 1
+        bad = [x for x in body_nodes if isinstance(x, (ast.Break, ast.Continue, ast.Return))]
+        lkey = f.key(lp.iter if isinstance(lp, ast.For) else lp.test)[:50]
+        key = "R-LOOP|accumulation|%s|%s" % (f.short, lkey)
+        new_guards = []
+        if not bad and f.qual in ref_guards:
+            mine = _guards_of(f, lp, sites)
+            # the confirmed loop: same function, same iterated expression; otherwise every loop of that function taken together
+            same = [g for k, g in ref_guards[f.qual] if k == lkey]
+            allowed = set().union(*same) if same else set().union(*[g for _, g in ref_guards[f.qual]])
+            new_guards = sorted(mine - allowed)
+        ok = not bad and not new_guards
+        obs.append(Ob(clause, "R-LOOP", key, f.loc(lp), ok,
+                      "accumulation loop over `%s` is total" % norm(lp.iter if isinstance(lp, ast.For) else lp.test)[:50] if ok else
+                      ("accumulation loop over `%s` in %s contains %s at %s: some triples / instances / classes are not counted" % (
+                          norm(lp.iter)[:40] if isinstance(lp, ast.For) else "?", f.short, type(bad[0]).__name__.lower(), f.loc(bad[0])) if bad else
+                       "accumulation loop over `%s` in %s now counts only under `%s`, a condition the confirmed loop did not have: the "
+                       "elements it excludes are not counted" % (norm(lp.iter)[:40] if isinstance(lp, ast.For) else "?", f.short, new_guards[0][:70])),
+                      note=not ctx.reachable(f)))
     return obs, n
 
 
